@@ -333,6 +333,19 @@ theorem dedup_of_nodup {α : Type} [DecidableEq α] : ∀ {l : List α}, l.Nodup
     have h' := List.nodup_cons.1 h
     rw [dedup_cons, if_neg h'.1, dedup_of_nodup h'.2]
 
+/-- for a list of distinct keys and an aggregate that does not depend on the order (min, max, a sum of at
+most two terms) the model aggregates a group with the plain fold -/
+theorem aggGroup_plain {ks : List Bytes} (hks : ks.Nodup) {agg : Agg}
+    (hord : agg ≠ .sum ∨ ks.length ≤ 2) (l : List Score) : aggGroup ks agg l = aggScores agg l := by
+  unfold aggGroup
+  rw [dedup_of_nodup hks]
+  have : ¬ (agg = .sum ∧ ks.length ≥ 3) := by
+    rintro ⟨h1, h2⟩
+    rcases hord with h | h
+    · exact h h1
+    · omega
+  rw [if_neg this]
+
 theorem dedup_dedup {α : Type} [DecidableEq α] (l : List α) : dedup (dedup l) = dedup l :=
   dedup_of_nodup (nodup_dedup l)
 
@@ -603,7 +616,7 @@ theorem model_zCombine_eq (db : DB) (ks : List Bytes) (agg : Agg) (inter : Bool)
     Model.zCombine db ks agg inter now =
       sortBy nullsFirst ((dedup ((cRows db ks now).map (·.elem))).filterMap (fun e =>
         if mFail db ks now inter e then none
-        else some (e, aggScores agg (mScores db ks now e)))) := rfl
+        else some (e, aggGroup ks agg (mScores db ks now e)))) := rfl
 
 def withScore (p : Bytes × Score) : Bytes × Option Score := (p.1, some p.2)
 
@@ -668,7 +681,7 @@ theorem zCombine_match_nodup {db : DB} (hz : db.ZWF) (now : Int) {ks : List Byte
   -- the model's groups are `G'` with every score present
   have hgroups : (dedup ((cRows db ks now).map (·.elem))).filterMap (fun e =>
         if mFail db ks now inter e then none
-        else some (e, aggScores agg (mScores db ks now e))) = G'.map withScore := by
+        else some (e, aggGroup ks agg (mScores db ks now e))) = G'.map withScore := by
     show _ = List.map withScore (List.filterMap _ _)
     rw [List.map_filterMap]
     apply filterMap_congr'
@@ -677,8 +690,9 @@ theorem zCombine_match_nodup {db : DB} (hz : db.ZWF) (now : Int) {ks : List Byte
     | true => simp [g, hf]
     | false =>
       have hm : e ∈ sMembers (abs now db) ks inter := (members_iff hz now hks inter e).1 ⟨he, hf⟩
-      have hag : aggScores agg (mScores db ks now e) = sAgg (abs now db) ks agg e :=
-        agg_eq hz now hks agg hord e
+      have hag : aggGroup ks agg (mScores db ks now e) = sAgg (abs now db) ks agg e := by
+        rw [aggGroup_plain hks hord]
+        exact agg_eq hz now hks agg hord e
       obtain ⟨sc, hsc⟩ := Option.ne_none_iff_exists'.1 (hsome e hm)
       simp [g, hf, hag, hsc, withScore]
   rw [model_zCombine_eq, hgroups, sortBy_map withScore Spec.zLt nullsFirst nullsFirst_withScore]
@@ -723,7 +737,7 @@ theorem zCombine_match_nodup {db : DB} (hz : db.ZWF) (now : Int) {ks : List Byte
 theorem model_zCombine_dedup (db : DB) (ks : List Bytes) (agg : Agg) (inter : Bool) (now : Int) :
     Model.zCombine db (dedup ks) agg inter now = Model.zCombine db ks agg inter now := by
   rw [model_zCombine_eq, model_zCombine_eq]
-  unfold mFail mScores
+  unfold mFail mScores aggGroup
   rw [cRows_dedup, dedup_dedup]
 
 theorem sScores_cons (s : State) (k : Bytes) (ks : List Bytes) (e : Bytes) :
